@@ -1,3 +1,27 @@
 """Predicates over (case, fail) used by known_findings.json signatures (DESIGN 1.7).
 Each takes the plain-data case and the Fail and says whether the input lies in the class of
 inputs the finding is about.  Evaluated on the *input*, never on the exception text alone."""
+
+from fractions import Fraction as _F
+
+from .cases import frac as _frac
+
+
+def _total(case):
+    return sum((_frac(b["w"]) for b in case["ballots"]), _F(0))
+
+
+def overfull_possible(case, fail):
+    """Simultaneous election rounds can meet more quota-reachers than unfilled seats only with
+    the Hare quota or with SequentialRCV's full-weight transfers (under Droop with a fractional
+    transfer the tallies cannot support it)."""
+    rule = case.get("rule", "STV")
+    sim = case.get("simultaneous", case.get("cfg", {}).get("simultaneous", True))
+    quota = case.get("quota", case.get("cfg", {}).get("quota", "droop"))
+    return bool(sim) and (quota == "hare" or rule == "SequentialRCV")
+
+
+def hare_threshold_zero(case, fail):
+    quota = case.get("quota", case.get("cfg", {}).get("quota", "droop"))
+    m = case.get("m", case.get("cfg", {}).get("m", 1))
+    return quota == "hare" and _total(case) < m
